@@ -46,8 +46,9 @@ def budget(tier):
 @st.composite
 def _case(draw):
     v = draw(st.sampled_from([1] * 6 + [2]))
-    cfg = {"v": v, "in": draw(pipeline.st_rail_kinds(v, 1, 4, "in")), "out": draw(pipeline.st_rail_kinds(v, 0, 2, "out"))}
-    cfg["dialog"] = draw(st.booleans())
+    n_in = draw(st.sampled_from([1, 2, 2, 3, 3, 4]))
+    cfg = {"v": v, "in": draw(pipeline.st_rail_kinds(v, n_in, n_in, "in")), "out": draw(pipeline.st_rail_kinds(v, 0, 2, "out"))}
+    cfg["dialog"] = draw(st.booleans()) if v == 1 else draw(st.sampled_from([False, True, "llmc"]))
     cfg["exc"] = draw(st.sampled_from([False, False, True]))
     if v == 1:
         cfg["ret"] = draw(st.sampled_from([0, 0, 1]))
@@ -55,7 +56,7 @@ def _case(draw):
         cfg["style"] = draw(st.sampled_from(["config", "hand"]))
     routes = pipeline.routes_for(cfg)
     turns = []
-    for t in range(draw(st.integers(1, 4))):
+    for t in range(draw(st.sampled_from([1, 2, 2, 3, 3, 4]))):
         turns.append(
             {
                 "user": draw(pipeline.st_user_text(t)),
@@ -76,7 +77,7 @@ def enumerate_cases(tier):
     """Deterministic core: every ordered verdict pattern of a 3-rail chain in turn 2 of a 2-turn conversation."""
     for v, kinds in ((1, ["check", "both", "self"]), (1, ["rewrite", "check", "both"]), (2, ["check", "self", "check"])):
         for exc in (False, True):
-            for dialog in (False, True):
+            for dialog in (False, True) if v == 1 else (False, True, "llmc"):
                 cfg = {"v": v, "in": kinds, "out": ["check"], "dialog": dialog, "exc": exc}
                 if v == 2:
                     cfg["style"] = "hand" if exc else "config"
@@ -97,7 +98,7 @@ def enumerate_cases(tier):
 def _check(case, obs):
     cfg = case["config"]
     v = cfg["v"]
-    labels = [f"v{v}", "dialog" if cfg["dialog"] else "general-mode", f"in-rails={len(cfg['in'])}", f"turns={len(case['turns'])}", case.get("api", "sync")]
+    labels = [f"v{v}", ("llm-continuation" if cfg["dialog"] == "llmc" else "dialog") if cfg["dialog"] else "general-mode", f"in-rails={len(cfg['in'])}", f"turns={len(case['turns'])}", case.get("api", "sync")]
     if cfg["exc"]:
         labels.append("rails-exceptions")
     if v == 2:
